@@ -54,8 +54,19 @@ def rand_sp(rng):
 
 # fixed scenarios re-deriving each known finding on the real code in every run (kind "script")
 SCRIPTS = {
-    "F2-bak": [["NewSession", "A"], ["OpenSp", 0, typed({"a": 0})], ["Init", 0, False],
-               ["PlantDir", ["A", "workspace", "9bfd29df07674bc4aa960cf661b5acd2.bak"]], ["Ids", 0], ["Len", 0]],
+    # F2 (fixed, 5a38a4a): foreign directory names next to real jobs never count as jobs
+    "exact-id-names": [["NewSession", "A"], ["OpenSp", 0, typed({"a": 0})], ["Init", 0, False],
+                       ["OpenSp", 0, typed({"a": 1})], ["Init", 1, False],
+                       ["PlantDir", ["A", "workspace", "9bfd29df07674bc4aa960cf661b5acd2.bak"]],
+                       ["PlantDir", ["A", "workspace", "9bfd29df07674bc4aa960cf661b5acd2x"]],
+                       ["PlantDir", ["A", "workspace", "9bfd29df07674bc4aa960cf661b5acd"]],
+                       ["PlantDir", ["A", "workspace", "9bfd29df07674bc4aa960cf661b5acd2f"]],
+                       ["PlantDir", ["A", "workspace", "42B7B4F2921788EA14DAC5566E6F06D0"]],
+                       ["PlantDir", ["A", "workspace", "42b7b4f2921788ea14dac5566e6f06d0~"]],
+                       ["Ids", 0], ["Len", 0], ["Contains", 0, 0], ["NewSession", "A"], ["OpenId", 1, "9bfd29"],
+                       ["OpenId", 1, "9bfd29df07674bc4aa960cf661b5acd2"], ["OpenId", 1, "42b7"],
+                       ["OpenId", 1, "9bfd29df07674bc4aa960cf661b5acd2.bak"], ["UpdateCache", 1], ["Check", 1],
+                       ["Edit", 0, [], ["set", "b", typed(0)]], ["Remove", 1]],
     "dirty-after-conflict": [["NewSession", "A"], ["OpenSp", 0, typed({"a": 0})], ["Init", 0, False],
                              ["OpenSp", 0, typed({"a": 1})], ["Init", 1, False],
                              ["Edit", 0, [], ["set", "a", typed(1)]], ["Edit", 0, [], ["set", "b", typed(0)]]],
@@ -85,10 +96,10 @@ def gen_inputs(tier, rng):
     descs = [{"kind": "script", "name": k} for k in sorted(SCRIPTS)]
     if tier == "quick":
         for _ in range(150):
-            descs.append({"kind": "random", "pseed": rng.randint(0, 10 ** 9), "len": rng.randint(8, 25), "plant": rng.random() < 0.1})
+            descs.append({"kind": "random", "pseed": rng.randint(0, 10 ** 9), "len": rng.randint(8, 25), "plant": rng.random() < 0.15})
     else:
         for _ in range(1500):
-            descs.append({"kind": "random", "pseed": rng.randint(0, 10 ** 9), "len": rng.randint(10, 60), "plant": rng.random() < 0.1})
+            descs.append({"kind": "random", "pseed": rng.randint(0, 10 ** 9), "len": rng.randint(10, 60), "plant": rng.random() < 0.15})
         for n in range(1, 4):
             for word in itertools.product(ALPHA, repeat=n):
                 descs.append({"kind": "word", "word": list(word)})
@@ -180,7 +191,8 @@ def random_ops(desc, W):
             ws = W.sessions[0].workspace
             present = sorted(x for x in os.listdir(ws) if len(x) == 32)
             base = rng.choice(present) if present else "".join(rng.choice(HEX) for _ in range(32))
-            yield ["PlantDir", ["A", "workspace", base + rng.choice([".bak", "~", "_old"])]]
+            name = rng.choice([base + ".bak", base + "~", base + "0", base[:31], base.upper(), "x" + base[1:]])
+            yield ["PlantDir", ["A", "workspace", name]]
             continue
         r = rng.random()
         nh = len(W.handles)
